@@ -194,6 +194,60 @@ def topological_clause_order(clauses):
     return order
 
 
+def renamed_bodiless_heads(prog, factors):
+    """Heads of a body-less AD with >= 2 heads that have no variable of their own in the exported network (neither
+    `H` nor `choice(Id,Idx,H)`): LogicFormula.extract_ads folded them into a clause named after a parent node."""
+    import re
+    have = set(factors)
+    for n in factors:
+        mm = re.match(r"^choice\(\d+,\d+,(.*)\)$", n)
+        if mm:
+            have.add(mm.group(1))
+    out = set()
+    for it in prog["items"]:
+        if it["kind"] == "ad" and not it["body"] and len(it["heads"]) >= 2:
+            out.update(h for h, _ in it["heads"] if h not in have)
+    return out
+
+
+def depends_on(prog, atom, targets):
+    """atom is in targets or is defined (transitively) through a body that mentions a target"""
+    deps = {}
+    for it in prog["items"]:
+        if it["kind"] == "ad":
+            for h, _ in it["heads"]:
+                deps.setdefault(h, set()).update(a for a, _ in it["body"])
+        else:
+            for b in it["bodies"]:
+                deps.setdefault(it["head"], set()).update(a for a, _ in b)
+    seen, todo = set(), [atom]
+    while todo:
+        x = todo.pop()
+        if x in seen:
+            continue
+        seen.add(x)
+        todo += list(deps.get(x, ()))
+    return bool(seen & set(targets))
+
+
+def mismatch_class(prog, factors, atom):
+    # narrow class: the wrong marginal belongs to an atom that depends on a head of a body-less multi-head AD which
+    # lost its own variable (the AD was exported as a clause of the parent atom, with that parent rule's body)
+    lost = renamed_bodiless_heads(prog, factors)
+    if lost and depends_on(prog, atom, lost):
+        return "bn-export-bodiless-ad-folded-into-parent-wrong-marginal"
+    return None
+
+
+# minimal witness of class bn-export-bodiless-ad-folded-into-parent-wrong-marginal (fixed probe, every run):
+# exported as  0.125::d; 0.25::d :- c.  -> P(d) = 0.1875 instead of 0.25
+WITNESS_FOLDED = {"facts": [("c", "0.5")],
+                  "items": [{"kind": "ad", "heads": [("a", "0.25"), ("b", "0.125")], "text_order": [0, 1], "body": []},
+                            {"kind": "rule", "head": "d", "bodies": [[("b", True)], [("c", True), ("a", True)]]}],
+                  "queries": ["d"], "evidence": [], "dyadic": True,
+                  "text": "0.25::a; 0.125::b.\n0.5::c.\nd :- b.\nd :- c, a.\nquery(d).\n"}
+
+
 def run_one(ctx, prog, cases, metas):
     src = prog["text"]
     try:
@@ -248,7 +302,8 @@ def run_one(ctx, prog, cases, metas):
         pm = marg[a].get(1, Fraction(0))
         if abs(pm - exact[a]) > Fraction(1, 10 ** 9):
             ctx.violation("BN marginal of %s is %s, possible-world probability %s: %r" % (a, float(pm), float(exact[a]), src),
-                          {"program": src, "atom": a, "bn": str(pm), "exact": str(exact[a])}, klass=None)
+                          {"program": src, "atom": a, "bn": str(pm), "exact": str(exact[a])},
+                          klass=mismatch_class(prog, factors, a))
     if res[0] != "ok":
         ctx.violation("ProbLog itself failed (%s) on %r" % (res[1], src), {"program": src}, klass=None)
     else:
@@ -258,7 +313,8 @@ def run_one(ctx, prog, cases, metas):
                 ctx.count("query_compared")
                 if abs(float(pm) - p) > 1e-9:
                     ctx.violation("BN marginal of query %s is %s, ProbLog says %s: %r" % (q, float(pm), p, src),
-                                  {"program": src, "query": q, "bn": str(pm), "problog": p}, klass=None)
+                                  {"program": src, "query": q, "bn": str(pm), "problog": p},
+                                  klass=mismatch_class(prog, factors, q))
             elif 1e-12 < p < 1 - 1e-12:
                 # the property speaks about the EXPORTED query variables only: a query that shares its node with
                 # another atom or is a negative literal of the DAG is not exported; recorded, not a violation
@@ -332,6 +388,7 @@ def run(ctx):
         ctx.log("replay not supported without the generator state; program: %r" % (prog_src,))
         return
     nprog = ctx.n(50, 2000)
+    run_one(ctx, dict(WITNESS_FOLDED), cases, metas)
     for _ in range(nprog):
         prog = c22.gen_program(ctx.rng, dyadic=ctx.rng.random() < 0.3, with_evidence=False)
         run_one(ctx, prog, cases, metas)
